@@ -104,3 +104,144 @@ def c13_ops(inputs, doc):
             if raised is not None and not (isinstance(raised, RSocketStreamIdInUse) and raised.error_code == ErrorCode.REJECTED):
                 return dict(op='assert_available', stream_id=s, table=table, raised=repr(raised))
     return None
+
+
+# --------------------------------------------------------------------------- C02 (native wire-format oracle)
+
+_T = dict(SetupFrame=1, LeaseFrame=2, KeepAliveFrame=3, RequestResponseFrame=4, RequestFireAndForgetFrame=5,
+          RequestStreamFrame=6, RequestChannelFrame=7, RequestNFrame=8, CancelFrame=9, PayloadFrame=10, ErrorFrame=11,
+          MetadataPushFrame=12, ResumeFrame=13, ResumeOKFrame=14)
+
+
+def _be(x, k):
+    return int(x).to_bytes(k, 'big')
+
+
+def _md(m):
+    m = m or b''
+    return (_be(len(m), 3) + m) if m else b''
+
+
+def native_enc(name, f):
+    t = _T[name]
+    md, d = f.get('metadata') or b'', f.get('data') or b''
+    s = f.get('stream_id', 0)
+
+    def hdr(b7=False, b6=False, b5=False, has_md=None):
+        hm = bool(md) if has_md is None else has_md
+        fl = (0x200 if f.get('flags_ignore') else 0) | (0x100 if hm else 0) | (0x80 if b7 else 0) | (0x40 if b6 else 0) | (0x20 if b5 else 0)
+        return _be(s, 4) + _be((t << 10) | fl, 2)
+    if t == 1:
+        body = _be(f['major_version'], 2) + _be(f['minor_version'], 2) + _be(f['keep_alive_milliseconds'], 4) + _be(f['max_lifetime_milliseconds'], 4)
+        if f.get('flags_resume'):
+            tok = f['resume_identification_token']
+            body += _be(len(tok), 2) + tok
+        body += _be(len(f['metadata_encoding']), 1) + f['metadata_encoding'] + _be(len(f['data_encoding']), 1) + f['data_encoding']
+        return hdr(b7=f.get('flags_resume'), b6=f.get('flags_lease')) + body + _md(md) + d
+    if t == 2:
+        return hdr() + _be(f['time_to_live'], 4) + _be(f['number_of_requests'], 4) + md
+    if t == 3:
+        return hdr(b7=f.get('flags_respond'), has_md=False) + _be(f['last_received_position'], 8) + d
+    if t in (4, 5):
+        return hdr(b7=f.get('flags_follows')) + _md(md) + d
+    if t == 6:
+        return hdr(b7=f.get('flags_follows')) + _be(f['initial_request_n'], 4) + _md(md) + d
+    if t == 7:
+        return hdr(b7=f.get('flags_follows'), b6=f.get('flags_complete')) + _be(f['initial_request_n'], 4) + _md(md) + d
+    if t == 8:
+        return hdr(has_md=False) + _be(f['request_n'], 4)
+    if t == 9:
+        return hdr(has_md=False)
+    if t == 10:
+        return hdr(b7=f.get('flags_follows'), b6=f.get('flags_complete'), b5=bool(f.get('flags_next')) or bool(md) or bool(d)) + _md(md) + d
+    if t == 11:
+        return hdr(has_md=False) + _be(f['error_code'], 4) + d
+    if t == 12:
+        return hdr() + md
+    if t == 13:
+        tok = f['resume_identification_token']
+        return hdr(has_md=False) + _be(f['major_version'], 2) + _be(f['minor_version'], 2) + _be(len(tok), 2) + tok + \
+            _be(f['last_server_position'], 8) + _be(f['first_client_position'], 8)
+    if t == 14:
+        return hdr(has_md=False) + _be(f['last_received_client_position'], 8)
+
+
+def _force_backend(backend):
+    import sys
+    if backend == 'native':
+        sys.modules['cbitstruct'] = None
+    for m in [m for m in sys.modules if m == 'rsocket' or m.startswith('rsocket.')]:
+        del sys.modules[m]
+
+
+def c02_roundtrip(inputs, doc):
+    import re
+    m = re.match(r'c02\.(\w+)\.(\w+)\[md=([\w-]+),data=([\w-]+)\]@(\w+)', doc['harness'])
+    kind, cname, mdk, dk, backend = m.groups()
+    _force_backend(backend)
+    import rsocket.frame as F
+    from rsocket.error_codes import ErrorCode
+    f = dict(inputs)
+    if isinstance(f.get('error_code'), dict):
+        f['error_code'] = ErrorCode(f['error_code']['value'])
+    if mdk == 'none':
+        f['metadata'] = None
+    if dk == 'none':
+        f['data'] = None
+    if 'resume_identification_token' in f:
+        f['token_length'] = len(f['resume_identification_token'])
+        if cname == 'SetupFrame':
+            f['flags_resume'] = True
+    elif cname == 'SetupFrame':
+        f['flags_resume'] = False
+
+    def build():
+        fr = getattr(F, cname)()
+        for k, v in f.items():
+            setattr(fr, k, v)
+        return fr
+    exp = native_enc(cname, f)
+    problems = []
+    try:
+        out = build().serialize()
+        if out != exp:
+            problems.append(dict(clause='encode', observed=out.hex(), expected=exp.hex()))
+        fr = build()
+        fr.serialize()
+        if fr.length != len(exp):
+            problems.append(dict(clause='length', observed=fr.length, expected=len(exp)))
+        g = F.parse_or_ignore(exp)
+        if g is None or type(g).__name__ != cname:
+            problems.append(dict(clause='decode type', observed=repr(g)))
+        else:
+            for k, v in f.items():
+                if k in ('token_length',) and not f.get('flags_resume', True):
+                    continue
+                got = getattr(g, k, None)
+                want = v
+                if k in ('data', 'metadata'):
+                    got, want = got or b'', want or b''
+                if k == 'flags_next':
+                    want = bool(v) or bool(f.get('data')) or bool(f.get('metadata'))
+                if isinstance(want, bool):
+                    got = bool(got)
+                if got != want:
+                    problems.append(dict(clause='decode ' + k, observed=repr(got), expected=repr(want)))
+            re_ = g.serialize()
+            if re_ != exp:
+                problems.append(dict(clause='reencode', observed=re_.hex(), expected=exp.hex()))
+        if len(exp) < (1 << 24):
+            fr = build()
+            chunks = [bytes(F.serialize_prefix_with_frame_size_header(fr))]
+            fr.write_data_metadata(lambda b: chunks.append(bytes(b)))
+            full = _be(len(exp), 3) + exp
+            if b''.join(chunks) != full:
+                problems.append(dict(clause='partial', observed=b''.join(chunks).hex(), expected=full.hex()))
+            if F.serialize_with_frame_size_header(build()) != full:
+                problems.append(dict(clause='oneshot', observed=F.serialize_with_frame_size_header(build()).hex(), expected=full.hex()))
+    except Exception as ex:
+        problems.append(dict(clause='exception', observed=repr(ex)))
+    if problems:
+        return dict(frame=cname, backend=backend, fields={k: (v.hex() if isinstance(v, bytes) else repr(v)) for k, v in f.items()},
+                    problems=problems[:4])
+    return None
